@@ -222,7 +222,14 @@ class Generator:
                         raise ExtractError("template: stray text in fn block for %s: %r" % (name, st))
                 else:
                     cur.append(ln)
-        text = clean_item(raw, self.rules, extra_substs=substs)
+        text = clean_item(raw, self.rules)
+        for sname, rx, rep in substs:
+            text, n = rx.subn(rep, text)
+            if n == 0:
+                # a unit-local substitution is an anchor: if the code no longer has the expression it rewrites, the
+                # contract below it no longer describes the code -- undecided (exit 2), never a verdict
+                raise ExtractError("anchor lost: %s matched nothing in fn %s (%s)" % (sname, name, rel))
+            self.rules.hit(sname, n)
         info = FnInfo()
         info.name, info.path, info.container = name, rel, container
         info.repo_line = s.line_of(s.masked.find("fn", a))
